@@ -4,7 +4,7 @@
 From Coq Require Import QArith Qreals Reals List Bool Lra.
 From Cop Require Import Lib.NumpyR Model.Lifecycle Model.Univariate Model.UnivQ Spec.UnivQBridge Lib.PyKdeQ.
 Import ListNotations.
-Open Scope R_scope.
+Local Open Scope R_scope.
 
 (* the stored dataset (a list value, flat or [[..]]) as a list of reals; not a list of numbers: outside the model *)
 Definition ds_reals (ds : jv) : list R :=
